@@ -315,7 +315,8 @@ def check_list(out, seen, cx, name, idx, digs):
     phys = cx.phys_points()
     # 'all': the full physical affine basis; other lists: the generic displaced point (wiring / order of the list)
     pts = list(range(len(phys))) if name == "all" else [len(phys) - 1]
-    if name == "all":
+    if name == "all" and cx.cfg["sys"] in ("Q1", "Q3"):
+        # (one qubit and one qutrit in both tiers; the 2-qubit configurations of the thorough tier keep the affine basis only)
         # the circuit route is not affine in the unknown (outcomes below eps_zero are dropped, branch buffers are concatenated):
         # the named alphabet objects, with exactly impossible outcomes at the first / last positions, are run as well
         named = [x for (_, _, x) in K.true_objects(cx)]
